@@ -1,12 +1,147 @@
-/- Driver family `arc`: C16 — 3DS arc.  (stub: replace `family`) -/
+/- Driver family `arc`: C16 — 3DS arc extraction.
+   Case / output formats: see `harness/src/fam/arc.rs`. -/
 import Driver.Common
+import MilaModel.Model.Arc
+import MilaModel.Spec.ArcImage
 
 namespace Driver.Arc
 open Mila
+open Mila.Spec.Arc (Content u32le LowestLabel NoLabel ConformsArcAt DistinctNames RecordAt RangeLeaves padding)
+
+/-- Lexicographic `≤` on byte strings (Rust `String` ordering = UTF-8 byte order). -/
+def bytesLe : Bytes → Bytes → Bool
+  | [], _ => true
+  | _ :: _, [] => false
+  | x :: xs, y :: ys => if x < y then true else if y < x then false else bytesLe xs ys
+
+def sortByName (m : List (Bytes × Bytes)) : List (Bytes × Bytes) :=
+  m.mergeSort (fun a b => bytesLe a.1 b.1)
+
+def filesStr (m : List (Bytes × Bytes)) : String :=
+  m.foldl (fun s kv => s ++ " " ++ hexOfBytes kv.1 ++ " " ++ hexOfBytes kv.2) (toString m.length)
+
+/-- `?` when a name lies outside the sub-codec alphabet (damaged images only). -/
+def parsedStr (m : List (Bytes × Bytes)) : String :=
+  if m.all (fun kv => (sjisSub.enc kv.1).isSome) then filesStr (sortByName m) else "?"
+
+def errClass : Err → String
+  | .NoCount => "NoCount" | .NoInfo => "NoInfo" | .MissingName => "MissingName"
+  | .OutOfBounds => "OutOfBounds" | _ => "Other"
+
+def modelStr : Res (List (Bytes × Bytes)) → String
+  | .ok m => "ok " ++ parsedStr m
+  | .err e => "err " ++ errClass e
+  | .panic => "panic"
+
+/-- `<k> (<a> <b>)*` followed by the rest of the fields. -/
+def takePairs {α β : Type} (fa : String → Option α) (fb : String → Option β) :
+    List String → Option (List (α × β) × List String)
+  | [] => none
+  | n :: rest =>
+    let rec go : Nat → List String → Option (List (α × β) × List String)
+      | 0, tl => some ([], tl)
+      | k + 1, a :: b :: tl => do
+        let x ← fa a
+        let y ← fb b
+        let (r, tl') ← go k tl
+        pure ((x, y) :: r, tl')
+      | _ + 1, _ => none
+    match n.toNat? with
+    | some k => go k rest
+    | none => none
+
+structure Case where
+  profile : Profile
+  img : Bytes
+  expect : String
+  padded : Bool
+  countAddr : Nat
+  infoAddr : Nat
+  K : Content
+  files : List (Bytes × Bytes)
+
+def parseCase : List String → Option Case
+  | id :: "arc" :: imgHex :: expect :: padded :: ca :: ia :: "D" :: dataHex :: "S" :: rest => do
+    -- the case id names the arithmetic profile of the harness binary: `c16c.…` / `c16w.…`
+    let p ← (if id.startsWith "c16c." then some Profile.checked else if id.startsWith "c16w." then some Profile.wrapping else none)
+    let img ← bytesOfHex imgHex
+    let data ← bytesOfHex dataHex
+    let ca ← ca.toNat?
+    let ia ← ia.toNat?
+    let (strings, rest) ← takePairs String.toNat? bytesOfHex rest
+    match rest with
+    | "L" :: rest =>
+      let (labels, rest) ← takePairs String.toNat? bytesOfHex rest
+      match rest with
+      | "F" :: rest =>
+        let (files, rest) ← takePairs bytesOfHex bytesOfHex rest
+        if rest.isEmpty then
+          pure ⟨p, img, expect, padded == "1", ca, ia, ⟨data, strings, labels⟩, files⟩
+        else none
+      | _ => none
+    | _ => none
+  | _ => none
+
+/-- Premises shared by the `MissingName` and `OutOfRange` expectations: both labels at their lowest
+addresses, first word readable, count word = number of records. -/
+def tablePremise (cs : Case) : Bool :=
+  decide (LowestLabel cs.K Spec.Arc.COUNT cs.countAddr) && decide (LowestLabel cs.K Spec.Arc.INFO cs.infoAddr)
+    && (u32le cs.K.data 0).isSome && u32le cs.K.data cs.countAddr == some cs.files.length
+
+/-- Record `i` is readable: a string cell and three words inside the data. -/
+def recordReadable (cs : Case) (i : Nat) : Bool :=
+  cs.K.strings.any (fun s => s.1 == cs.infoAddr + 16 * i) && (u32le cs.K.data (cs.infoAddr + 16 * i + 12)).isSome
+
+/-- The header decision of the format: padding applies iff the first data word is 0. -/
+def padOf (cs : Case) : Nat := if u32le cs.K.data 0 == some 0 then 0x60 else 0
+
+def missingNamePremise (cs : Case) : Bool :=
+  tablePremise cs &&
+  (List.range cs.files.length).any (fun i =>
+    !cs.K.strings.any (fun s => s.1 == cs.infoAddr + 16 * i) && cs.infoAddr + 16 * i + 4 ≤ cs.K.data.length
+      && (List.range i).all (recordReadable cs))
+
+def rangeOf (cs : Case) (i : Nat) : Nat × Nat :=
+  ((u32le cs.K.data (cs.infoAddr + 16 * i + 12)).getD 0 + padOf cs, (u32le cs.K.data (cs.infoAddr + 16 * i + 8)).getD 0)
+
+def outOfRangePremise (cs : Case) : Bool :=
+  tablePremise cs && (List.range cs.files.length).all (recordReadable cs) &&
+  (List.range cs.files.length).any (fun i =>
+    let (start, size) := rangeOf cs i
+    decide (RangeLeaves cs.K start size))
+
+def oracle (cs : Case) (impl : List String) : String :=
+  let out := impl.drop 1
+  if out == ["panic"] then "FAIL panic" else
+  match cs.expect with
+  | "ok" =>
+    if !decide (DistinctNames cs.files) then "ok skip duplicate-names" else
+    if !decide (ConformsArcAt cs.K cs.files cs.padded cs.countAddr cs.infoAddr) then
+      "FAIL generator: content does not conform to the arc layout"
+    else if out == ("ok " ++ filesStr (sortByName cs.files)).splitOn " " then "ok"
+    else "FAIL extracted files differ from the packed files"
+  | "NoCount" =>
+    if !decide (NoLabel cs.K Spec.Arc.COUNT) then "FAIL generator: Count label present"
+    else if out == ["err", "NoCount"] then "ok" else "FAIL image without Count label not reported as NoCount"
+  | "NoInfo" =>
+    if decide (NoLabel cs.K Spec.Arc.COUNT) || !decide (NoLabel cs.K Spec.Arc.INFO) then "FAIL generator: labels"
+    else if out == ["err", "NoInfo"] then "ok" else "FAIL image without Info label not reported as NoInfo"
+  | "MissingName" =>
+    if !missingNamePremise cs then "FAIL generator: no nameless record"
+    else if out == ["err", "MissingName"] then "ok" else "FAIL nameless record not reported as MissingName"
+  | "OutOfRange" =>
+    if !outOfRangePremise cs then "FAIL generator: no record leaves the data"
+    else if out.head? == some "err" then
+      (if out == ["err", "OutOfBounds"] then "ok" else "FAIL range outside the data reported with another error class")
+    else "FAIL record whose range leaves the data region was not reported as an error"
+  | _ => "ok skip malformed"
 
 def family : Family where
   State := Unit
   init := ()
-  step := fun _ _ _ => ((), "unimplemented", "FAIL unimplemented")
+  step := fun _ c i =>
+    match parseCase c with
+    | some cs => ((), modelStr (Mila.Arc.fromBytes sjisSub cs.profile cs.img), oracle cs i)
+    | none => ((), "bad-case", "FAIL bad-case")
 
 end Driver.Arc
